@@ -45,6 +45,12 @@ func NewListStoresQuery(storesBackend storage.StoresBackend, opts ...ListStoresQ
 }
 
 func (q *ListStoresQuery) Execute(ctx context.Context, req *openfgav1.ListStoresRequest, storeIDs []string) (*openfgav1.ListStoresResponse, error) {
+	// storeIDs is nil when access control does not restrict the caller. A non-nil empty list means
+	// the caller may get no store: the datastores treat an empty ID list as "no filter", so don't ask them.
+	if storeIDs != nil && len(storeIDs) == 0 {
+		return &openfgav1.ListStoresResponse{Stores: []*openfgav1.Store{}}, nil
+	}
+
 	decodedContToken, err := q.encoder.Decode(req.GetContinuationToken())
 	if err != nil {
 		return nil, serverErrors.ErrInvalidContinuationToken
